@@ -43,7 +43,15 @@ def _hist_plan(tier, seed):
     return [dict(kind='history', seed=seed * 1000 + 500 + s, cfgs=cfgs,
                  examples=1200 if tier == 'thorough' else 300,
                  min_len=10, max_len=45)
-            for s in range(8 if tier == 'thorough' else 4)]
+            for s in range(8 if tier == 'thorough' else 4)] + [
+        # the interpreter run with -O (assert statements stripped):
+        # results must be the same (rejected calls are left out, several
+        # refusals are assert statements)
+        dict(kind='history', seed=seed * 1000 + 590 + s, cfgs=cfgs[:5],
+             examples=800 if tier == 'thorough' else 200,
+             min_len=10, max_len=40, pyopt=True,
+             exclude=['bad', 'full', 'decref_zero'])
+        for s in range(4 if tier == 'thorough' else 1)]
 
 
 HIST_ALPHA_AR = {'build': 8, 'funcop': 14, 'compare_all': 8, 'churn': 8,
